@@ -56,6 +56,17 @@ def vectors(ctx):
                 y = math.nextafter(y, -100.0)
                 xs.append(("ulp", sgn * x))
                 xs.append(("ulp", sgn * y))
+    # the single-precision neighbours of every transition (values a caller holding float32 arrays passes; as Python floats here)
+    import numpy as np
+    for k, t in T.items():
+        f = np.float32(t)
+        up, dn = f, f
+        for _ in range(4):
+            for sgn in (1, -1):
+                xs.append(("f32", sgn * float(up)))
+                xs.append(("f32", sgn * float(dn)))
+            up = np.nextafter(up, np.float32(100.0))
+            dn = np.nextafter(dn, np.float32(-100.0))
     for c in (0.0, 87.0, 90.0):
         for sgn in (1, -1):
             x = sgn * c
